@@ -197,7 +197,12 @@ def main(argv=None):
     if replay_path:
         ev['coverage']['replay'] = replay_path
     os.makedirs(os.path.join(VERIF_DIR, 'evidence'), exist_ok=True)
-    evp = os.path.join(VERIF_DIR, 'evidence', f'{prop_id}.json')
+    evdir = os.path.join(VERIF_DIR, 'evidence')
+    if os.path.realpath(REPO_DIR) != '/repo':
+        # sensitivity runs against a scratch copy must not overwrite the evidence of the real tree
+        evdir = os.path.join(VERIF_DIR, 'evidence', '.scratch')
+        os.makedirs(evdir, exist_ok=True)
+    evp = os.path.join(evdir, f'{prop_id}.json')
     with open(evp + '.tmp', 'w') as f:
         json.dump(ev, f, indent=1)
     os.replace(evp + '.tmp', evp)
